@@ -2,6 +2,7 @@
    Property theorems only.  `to_transform`, `aligned_pos`, `fit_view_box` are the SOURCE-DERIVED
    definitions in Gen/LeafViewBox.v (regenerated from /repo on every run). *)
 From RV Require Import Model.Base Model.GeomPrims Model.ViewBoxSpec Model.ViewBoxChk Gen.LeafViewBox Proofs.ViewBox.
+From RV Require Import Gen.Units Model.SvgSize Proofs.SvgSize.
 Local Open Scope Q_scope.
 
 Theorem C17_no_skew : forall vb s,
@@ -77,6 +78,53 @@ Theorem C17_image_fit : forall actual rect a, pos_size actual -> pos_rect rect -
                             vb_aspect := a |} (r_size rect))).
 Proof. exact image_fit. Qed.
 Print Assumptions C17_image_fit.
+
+(* --- document size: `resolve_svg_size` (hand model over the source-derived unit table, tied by the
+   svg-size correspondence) computes exactly the SVG rule per dimension: absolute unit at the DPI,
+   percentage of the viewBox, else percentage of the default size; missing = 100%; it fails exactly
+   when a resolved dimension is not positive. *)
+Theorem C17_size_rules : forall w h vb dpi fs ds,
+  let W := spec_dim w (option_map rw vb) (sw ds) dpi fs in
+  let H := spec_dim h (option_map rh vb) (sh ds) dpi fs in
+  match fst (resolve_svg_size w h vb dpi fs ds) with
+  | Some s => sw s == W /\ sh s == H /\ 0 < W /\ 0 < H
+  | None => ~ (0 < W /\ 0 < H)
+  end.
+Proof. exact size_rules. Qed.
+Print Assumptions C17_size_rules.
+
+Theorem C17_size_restore_iff : forall w h vb dpi fs ds,
+  snd (resolve_svg_size w h vb dpi fs ds) = true <->
+  vb = None /\ (is_pct (match w with Some l => l | None => def_len end) = true \/
+                is_pct (match h with Some l => l | None => def_len end) = true).
+Proof. exact restore_iff. Qed.
+Print Assumptions C17_size_restore_iff.
+
+(* the unit table regenerated from units.rs: 1in = 2.54cm = 25.4mm = 72pt = 6pc = dpi user units *)
+Theorem C17_unit_in : forall n dpi fs, exists v, convert_abs UIn n dpi fs = Some v /\ v == n * dpi.
+Proof. exact unit_in. Qed.
+Print Assumptions C17_unit_in.
+
+Theorem C17_unit_equiv : forall n dpi fs a b c d e,
+  convert_abs UIn n dpi fs = Some a ->
+  convert_abs UCm (n * (254#100)) dpi fs = Some b ->
+  convert_abs UMm (n * (254#10)) dpi fs = Some c ->
+  convert_abs UPt (n * 72) dpi fs = Some d ->
+  convert_abs UPc (n * 6) dpi fs = Some e ->
+  a == b /\ a == c /\ a == d /\ a == e.
+Proof. exact unit_equiv. Qed.
+Print Assumptions C17_unit_equiv.
+
+Theorem C17_unit_px : forall n dpi fs,
+  convert_abs UPx n dpi fs = convert_abs UNone n dpi fs /\ convert_abs UPx n dpi fs = Some n.
+Proof. exact unit_px. Qed.
+Print Assumptions C17_unit_px.
+
+Example C17_size_nv :
+  fst (resolve_svg_size (Some {| l_num := 2; l_unit := UIn |}) None
+         (Some {| rx := 0; ry := 0; rw := 30; rh := 40 |}) 96 12 {| sw := 100; sh := 100 |})
+  = Some {| sw := 2 * 96; sh := 40 * (100 / 100) |}.
+Proof. reflexivity. Qed.
 
 (* non-vacuity: the hypotheses are satisfiable and the conclusion is about a real mapping *)
 Example C17_nv :
